@@ -383,8 +383,14 @@ func (e *explainer) isEDB(p ast.PredicateSym) bool {
 	if e.program == nil {
 		return false
 	}
-	_, ok := e.program.EdbPredicates[p]
-	return ok
+	if _, ok := e.program.EdbPredicates[p]; ok {
+		return true
+	}
+	// A predicate that no rule defines and that the program does not
+	// mention at all (only declared, or not even that) can only hold
+	// stored facts.
+	_, idb := e.program.IdbPredicates[p]
+	return !idb
 }
 
 // isInitialFact returns true if goal is a fact stated in the program. Such
